@@ -549,6 +549,10 @@ def build_request(r):
     obj = _build_kind(r, base, nid)
     for o in r.get("opts") or []:
         OPTS[r["kind"]][o](obj, r)
+    if r.get("site"):
+        # a required attribute somewhere in the request present-but-empty / absent / good (harness/c10_empty.py)
+        import c10_empty
+        c10_empty.apply(obj, r["kind"], r["site"][0], r["site"][1])
     return obj
 
 
